@@ -69,11 +69,22 @@ def scan_definitions(text):
     return sorted([m.group(1), m.group(2)] for m in DEF_RE.finditer(text))
 
 
-def scan_user_defs(project):
+def named_files(project):
+    """The files the command line names, as keys of project.files: an argument that is a file of the project, or
+    every `.circom` file below an argument that is a directory of the project (FileStack::add_files)."""
     out = []
     for a in project.argv:
         if a in project.files:
-            out += scan_definitions(project.files[a])
+            out.append(a)
+        else:
+            out += sorted(n for n in project.files if n.startswith(a.rstrip("/") + "/") and n.endswith(".circom"))
+    return out
+
+
+def scan_user_defs(project):
+    out = []
+    for a in named_files(project):
+        out += scan_definitions(project.files[a])
     return sorted(out)
 
 
@@ -136,7 +147,7 @@ def mb_log(rng):
     return 'log("%s");' % mb_text(rng)
 
 
-def decorate_definition(rng, text, p_line=0.5, p_space=0.06):
+def decorate_definition(rng, text, p_line=0.5, p_space=0.06, p_break=0.05):
     """Puts block comments and `log("...")` statements that contain 2-, 3- and
     4-byte scalars in front of statements ON THE SAME LINE.  Only the text after
     the first `{` is touched (the header stays scannable by DEF_RE); a comment
@@ -154,8 +165,12 @@ def decorate_definition(rng, text, p_line=0.5, p_space=0.06):
         for k, part in enumerate(stripped.split(" ")):
             if k and rng.random() < p_space:
                 pieces.append(mb_comment(rng))
+            if k and rng.random() < p_break:
+                # third audit: a statement written over two lines, so that labels span lines (endLine != startLine);
+                # the continuation line may start with multi-byte text (end column in characters vs bytes)
+                pieces.append("\n" + indent + "      " + (mb_comment(rng) if rng.random() < 0.5 else ""))
             pieces.append(part)
-        stripped = " ".join(pieces)
+        stripped = " ".join(pieces).replace(" \n", "\n")
         if n > 0 and indent and stripped and stripped != "}" and rng.random() < p_line:
             x = rng.random()
             pre = [mb_comment(rng)] if x < 0.55 else [mb_log(rng)] if x < 0.8 else \
@@ -245,12 +260,29 @@ def check_sarif_positions(projects, runs, fail, stats):
 EXPECTED_CONTEXT_METHODS = ["function", "is_function", "is_template", "template", "underlying_str"]
 
 
+def _box_entries(body):
+    """The arguments of the `Box::new( .. )` calls in the text (balanced parentheses, any number of lines)."""
+    out = []
+    for m in re.finditer(r"Box::new\(", body):
+        depth, i = 1, m.end()
+        while i < len(body) and depth:
+            depth += {"(": 1, ")": -1}.get(body[i], 0)
+            i += 1
+        out.append(" ".join(body[m.end():i - 1].split()))
+    return out
+
+
 def pass_interface():
     """How a pass can see the runner, re-read from the current source: the
     methods of trait AnalysisContext, which entries of get_analysis_passes()
-    ignore the context (`|_, cfg|`), and which context methods the others call.
+    ignore the context, and which context methods the others call.
     Returns (table, problems): problems is non-empty when the shape the model
-    relies on (only `template` lookups reach the runner) no longer holds."""
+    relies on (only `template` lookups reach the runner) no longer holds.
+    Third audit (false alarms): an entry may be a path `module::function`, or a closure of any layout
+    (`|_, cfg| m::f(cfg)`, `|_ctx, cfg| { m::f(cfg) }`, several lines); a closure ignores the context when its
+    first parameter is `_` or does not occur in its body, otherwise the function it hands the context to is
+    examined like a path entry. Methods added to the trait are recorded, not a problem by themselves: what a
+    pass CALLS is what counts (and every lookup is recorded by the harness at run time)."""
     problems = []
     src = os.path.join(common.REPO, "program_analysis", "src")
     try:
@@ -258,27 +290,41 @@ def pass_interface():
         trait = open(os.path.join(src, "analysis_context.rs")).read()
         body = lib[lib.index("pub fn get_analysis_passes"):]
         body = body[:body.index("\n}")]
-        entries = re.findall(r"Box::new\((.*?)\),?\s*\n", body)
+        body = re.sub(r"//[^\n]*", "", body)
+        entries = _box_entries(body)
         tbody = trait[trait.index("pub trait AnalysisContext"):]
         methods = sorted(set(re.findall(r"\bfn\s+(\w+)\s*[(<]", tbody)))
     except (OSError, ValueError) as e:
         return {}, ["cannot read the pass table: %s" % e]
-    free = [e for e in entries if re.match(r"\|_\s*,\s*\w+\|\s*\w+::\w+\(\w+\)$", e)]
-    using = [e for e in entries if e not in free]
-    calls = {}
-    for e in using:
-        m = re.match(r"(\w+)::(\w+)$", e)
-        if not m:
-            problems.append("pass entry of unknown shape: %s" % e)
+    free, using = [], []          # using: (entry, module, function)
+    for e in entries:
+        m = re.match(r"(?:move\s+)?\|\s*(\w+)\s*(?::[^,|]*)?,\s*(\w+)\s*(?::[^|]*)?\|\s*(.*)$", e, re.S)
+        if m:
+            ctx_name, rest = m.group(1), m.group(3)
+            if ctx_name == "_" or not re.search(r"\b%s\b" % re.escape(ctx_name), rest):
+                free.append(e)
+                continue
+            c = re.search(r"(\w+)::(\w+)\s*\(", rest)
+            if not c:
+                problems.append("pass entry hands the context to something that is not `module::function(..)`: %s" % e)
+                continue
+            using.append((e, c.group(1), c.group(2)))
             continue
+        m = re.match(r"(?:crate::|self::)?(\w+)::(\w+)$", e)
+        if m:
+            using.append((e, m.group(1), m.group(2)))
+        else:
+            problems.append("pass entry of unknown shape: %s" % e)
+    calls = {}
+    for e, module, _fn in using:
         try:
-            text = open(os.path.join(src, m.group(1) + ".rs")).read()
+            text = open(os.path.join(src, module + ".rs")).read()
         except OSError:
             problems.append("module of pass %s not found" % e)
             continue
         text = re.sub(r"//[^\n]*", "", text)
         text = text.split("#[cfg(test)]")[0]          # the unit tests drive the pass with a runner of their own
-        names = set(re.findall(r"(\w+)\s*:\s*&mut dyn AnalysisContext", text))
+        names = set(re.findall(r"(\w+)\s*:\s*&mut\s+(?:dyn|impl)\s+AnalysisContext", text))
         if not names:
             problems.append("pass %s: no `&mut dyn AnalysisContext` parameter found" % e)
         c = sorted({x for n in names for x in re.findall(r"\b%s\s*\.\s*(\w+)\s*\(" % re.escape(n), text)})
@@ -286,27 +332,29 @@ def pass_interface():
         for n in names:       # the context must not travel further (a helper could call anything)
             uses = len(re.findall(r"\b%s\b" % re.escape(n), text))
             known = len(re.findall(r"\b%s\s*\.\s*\w+\s*\(" % re.escape(n), text)) \
-                + len(re.findall(r"\b%s\s*:\s*&mut dyn AnalysisContext" % re.escape(n), text))
+                + len(re.findall(r"\b%s\s*:\s*&mut\s+(?:dyn|impl)\s+AnalysisContext" % re.escape(n), text))
             if uses != known:
                 problems.append("pass %s: `%s` occurs %d times, only %d are the parameter or a method call" % (e, n, uses, known))
         # is_function / is_template / underlying_str read the ASTs and the file library only (&self)
         unmirrored = [x for x in c if x not in ("template", "is_template", "is_function", "underlying_str")]
         if unmirrored:
             problems.append("pass %s calls context.%s (the model mirrors only template lookups)" % (e, unmirrored))
-    if methods != EXPECTED_CONTEXT_METHODS:
-        problems.append("trait AnalysisContext has methods %s, the model and the harness assume %s" % (methods, EXPECTED_CONTEXT_METHODS))
-    if not entries or len(free) + len(using) != len(entries):
+    missing = [m for m in EXPECTED_CONTEXT_METHODS if m not in methods]
+    if missing:
+        problems.append("trait AnalysisContext lacks the methods %s the model and the harness assume" % missing)
+    if not entries or len(free) + len(using) + len([x for x in problems if "pass entry" in x]) != len(entries):
         problems.append("pass table not understood")
     # nobody else in the crate touches the context
     others = []
     for f in sorted(os.listdir(src)):
         if f.endswith(".rs") and f not in ("lib.rs", "analysis_context.rs", "analysis_runner.rs") \
-                and f[:-3] not in [e.split("::")[0] for e in using]:
+                and f[:-3] not in [mod for _, mod, _ in using]:
             if "AnalysisContext" in open(os.path.join(src, f)).read():
                 others.append(f)
     if others:
         problems.append("AnalysisContext is also used in %s" % others)
-    return {"trait_methods": methods, "passes": len(entries), "context_free_passes": len(free),
+    return {"trait_methods": methods, "trait_methods_beyond_the_expected": [m for m in methods if m not in EXPECTED_CONTEXT_METHODS],
+            "passes": len(entries), "context_free_passes": len(free),
             "context_using_passes": calls}, problems
 
 
@@ -321,13 +369,15 @@ def make_projects(ctx, base, n_lattice, n_sampled, big_counts=()):
     # candidates: small ones for the full lattice, rich ones for sampled options
     cand = []
     for i in range(n_lattice * 4):
-        st = e2e.gen_structure(ctx.rng, rich=False)
+        st = e2e.gen_structure(ctx.rng, rich=False, extras=True)
         mb = decorate_structure(ctx.rng, st)
-        cand.append(e2e.render_structure(st, tag="small%d" % i, meta={"user_defs": user_defs_of_structure(st), "multibyte": mb}))
+        cand.append(e2e.render_structure(st, tag="small%d" % i, meta={"user_defs": user_defs_of_structure(st), "multibyte": mb,
+                                                                      "extras": st.get("extras", [])}))
     for i in range(n_sampled):
-        st = e2e.gen_structure(ctx.rng, rich=True)
+        st = e2e.gen_structure(ctx.rng, rich=True, extras=True)
         mb = decorate_structure(ctx.rng, st)
-        cand.append(e2e.render_structure(st, tag="rich%d" % i, meta={"user_defs": user_defs_of_structure(st), "multibyte": mb}))
+        cand.append(e2e.render_structure(st, tag="rich%d" % i, meta={"user_defs": user_defs_of_structure(st), "multibyte": mb,
+                                                                     "extras": st.get("extras", [])}))
     for i, (counts, extra) in enumerate(big_counts):
         st = big_structure(ctx.rng, counts, extra)
         cand.append(e2e.render_structure(st, tag="big%d" % i, meta={"user_defs": user_defs_of_structure(st), "big": list(counts)}))
@@ -364,7 +414,7 @@ def def_ranges(project):
     textual scan of the user files (the comments and log strings the generator
     writes never contain a definition header; offsets are counted in bytes)."""
     out = {}
-    for a in project.argv:
+    for a in named_files(project):
         text = project.files.get(a)
         if text is None:
             continue
@@ -388,7 +438,7 @@ def reported_drops(project, truth):
         if r["level"] != "error":
             continue
         for l in r["primary"]:
-            for a in project.argv:
+            for a in named_files(project):
                 if l.get("path") and os.path.abspath(l["path"]) == os.path.abspath(os.path.join(project.dir, a)):
                     locs.add((a, l["start"]))
     return locs
@@ -510,8 +560,11 @@ def run(ctx, proofs):
                             runs.append({"p": i, "level": lv, "allow": allow, "verbose": vb, "sarif": sf, "big": True})
         for i in lattice_idx:
             runs += e2e.lattice_runs(i, projects[i].meta["ids"])
+            # third audit: --allow compares STRINGS — prefixes, case variants, the empty string, unknown ids hide nothing
+            runs += e2e.near_miss_runs(i, projects[i].meta["ids"], ctx.rng, 6)
         for i in sampled_idx:
             runs += e2e.sampled_runs(i, projects[i].meta.get("ids", []), ctx.rng, n_opts)
+            runs += e2e.near_miss_runs(i, projects[i].meta.get("ids", []), ctx.rng, 2)
         # corpus witnesses: the unfiltered run, repeated in fresh processes (hash orders)
         for i in range(ncorpus):
             for _ in range(8):
@@ -558,6 +611,47 @@ def run(ctx, proofs):
                 levels_seen.add(rr["level"])
                 if not rr["pfiles"]:
                     labelless += 1
+        # ---- third audit: what the generator reached (shapes no project had before), counted on the ground truth
+        shape = {"labels_positioned_independently": 0, "labels_positioned_by_the_in_process_value": 0,
+                 "independent_position_differs_from_in_process": 0, "multi_line_labels": 0,
+                 "labels_with_multibyte_text_inside_their_range": 0, "reports_with_two_or_more_primary_labels": 0,
+                 "reports_located_in_a_user_file_and_an_included_file": 0, "two_label_reports_located_solely_in_included_files": 0,
+                 "secondary_labels": 0, "secondary_labels_in_another_file_than_the_primary": 0,
+                 "primary_file_ids_compared_with_the_primary_labels": 0, "extras": {}}
+        for i, t in enumerate(truths):
+            for x in projects[i].meta.get("extras", []):
+                shape["extras"][x] = shape["extras"].get(x, 0) + 1
+            if t.bad:
+                continue
+            t.pfile_problems()
+            shape["primary_file_ids_compared_with_the_primary_labels"] += getattr(t, "pfiles_compared", 0)
+            for rr, _ in t.payload:
+                for l in rr["primary"] + rr["secondary"]:
+                    t.label_pos(l)
+                files = {l["file"] for l in rr["primary"]}
+                if len(rr["primary"]) >= 2:
+                    shape["reports_with_two_or_more_primary_labels"] += 1
+                    if files and not (files & set(t.user_files)):
+                        shape["two_label_reports_located_solely_in_included_files"] += 1
+                if files & set(t.user_files) and files - set(t.user_files):
+                    shape["reports_located_in_a_user_file_and_an_included_file"] += 1
+                shape["secondary_labels"] += len(rr["secondary"])
+                shape["secondary_labels_in_another_file_than_the_primary"] += sum(1 for l in rr["secondary"] if l["file"] not in files)
+            ps = getattr(t, "pos_stats", None) or {}
+            shape["labels_positioned_independently"] += ps.get("independent", 0)
+            shape["labels_positioned_by_the_in_process_value"] += ps.get("fallback", 0)
+            shape["independent_position_differs_from_in_process"] += ps.get("differs_from_in_process", 0)
+            shape["multi_line_labels"] += ps.get("multiline", 0)
+            shape["labels_with_multibyte_text_inside_their_range"] += ps.get("multibyte_inside", 0)
+        near = [r for r in runs if r.get("near_miss")]
+        near_nontrivial = 0
+        for r in near:
+            t = truths[r["p"]]
+            if not t.bad and any(t.keep(q, r["level"], r["allow"]) for q in t.produced()):
+                near_nontrivial += 1
+        shape["near_miss_allow_runs"] = len(near)
+        shape["near_miss_allow_runs_with_something_displayed"] = near_nontrivial
+        shape["near_miss_allow_samples"] = [r["allow"] for r in near[:: max(1, len(near) // 6)]][:6]
         bad_truth = [projects[i].tag for i, t in enumerate(truths) if t.bad]
         big_counts = {}
         for r in runs:
@@ -603,6 +697,13 @@ def run(ctx, proofs):
                               "in front of them on the line were compared with their SARIF regions"
                               % (pos_stats["multibyte"], len(pos_stats["projects"]), sorted(pos_stats["by_width"])),
                               {"broken": "decorate_structure of lib/props/C03.py"}, no_input=True)
+            elif (shape["multi_line_labels"] < 20 or shape["labels_with_multibyte_text_inside_their_range"] < 50
+                  or shape["reports_with_two_or_more_primary_labels"] < 5
+                  or shape["reports_located_in_a_user_file_and_an_included_file"] < 1
+                  or shape["extras"].get("minus-L", 0) < 3 or shape["extras"].get("directory", 0) < 3
+                  or near_nontrivial < 50 or shape["labels_positioned_independently"] < 10 * max(1, shape["labels_positioned_by_the_in_process_value"])):
+                ctx.violation("generator degenerate (shapes added after the third audit): %s" % {k: v for k, v in shape.items() if k != "near_miss_allow_samples"},
+                              {"broken": "add_extras of lib/e2e.py / decorate_definition of lib/props/C03.py", "shapes": shape}, no_input=True)
             elif len(lattice_idx) - ncorpus < n_lattice // 2 or len(id_hist) < 10 or len(levels_seen) < 3 or not labelless:
                 ctx.violation("generator degenerate: %d lattice projects, %d ids, levels %s, %d label-less reports"
                               % (len(lattice_idx), len(id_hist), sorted(levels_seen), labelless),
@@ -642,6 +743,10 @@ def run(ctx, proofs):
                 "by_widest_preceding_scalar_utf8_bytes": {str(k): v for k, v in sorted(pos_stats["by_width"].items())},
                 "projects_with_such_a_position": len(pos_stats["projects"]),
             },
+            "shapes_reached": shape,
+            "shapes_note": "no pass can put a secondary label into another file than the primary one (every add_secondary call site "
+                           "passes the file id of the primary label's meta), so that shape is unreachable and its count is 0; a report "
+                           "with two primary labels exists only for a duplicated definition (Merger::add_definitions)",
             "disagreements_model_vs_impl": len(dis), "spec_failures": len(fail),
             "samples": [{"argv": projects[r["p"]].argv, "options": {k: r[k] for k in ("level", "allow", "verbose", "sarif")},
                          "exit": r["exit"], "displayed": len([e for e in r["events"] if e[0] == "diag"])} for r in sample_runs],
